@@ -231,7 +231,7 @@ func C18(c *Ctx) {
 		"decided per module: section prefixes are distinct single constant bytes initialised by composite literals and never written; every store access in module code uses a key whose first segment is such a prefix (so sections cannot alias); " +
 		"each builder is injective (all segments fixed-width or length-prefixed, at most a trailing Raw); integers are big-endian (byte order = numeric order); iteration prefixes end on a segment boundary of the builders of their section; " +
 		"the stream-key parsers read exactly the offsets the builder writes and return (receiver, sender) in builder order; query callbacks re-prefix with the section they iterate. Covers all identifier/height/address values because the layout, not sampled values, is analysed."
-	r.Rules = []string{"A11.prefix-distinct", "A11.prefix-immutable", "A12.item-identity", "A11.iter-end-bound", "A11.section-resolved", "A11.injective", "A11.big-endian", "A11.iter-prefix", "A11.parser", "A11.reprefix"}
+	r.Rules = []string{"A11.prefix-distinct", "A11.prefix-immutable", "A12.item-identity", "A11.iter-end-bound", "A11.section-resolved", "A11.injective", "A11.big-endian", "A11.iter-prefix", "A11.iter-confined", "A11.parser", "A11.reprefix"}
 	r.Trusted = []string{"address.MustLengthPrefix emits one length byte + payload and panics above 255 bytes", "sdk.KVStorePrefixIterator / prefix.Store semantics", "binary.BigEndian.PutUint64"}
 	r.NotDecided = []string{"behaviour of the IAVL store itself"}
 
@@ -397,6 +397,31 @@ func C18(c *Ctx) {
 			continue
 		}
 		shape, err := keyShape(c, w.Expand(e.Key, 6), 0)
+		if e.Prefix != nil {
+			// an access through a prefix store: the key in the underlying store is the store's prefix followed by the key
+			// given (nil: the whole prefix store; a full key with the leading prefix bytes sliced off: the rest of it)
+			var pshape, kshape []Seg
+			pshape, err = keyShape(c, w.Expand(e.Prefix, 6), 0)
+			if err == nil {
+				k := w.Expand(e.Key, 6)
+				switch {
+				case k.Op == "const" && k.Name == "nil":
+				case k.Op == "slice" && len(k.Args) >= 2 && k.Args[1].Op == "call" && k.Args[1].Name == "builtin:len" && len(k.Args[1].Args) == 1 && k.Args[1].Args[0].Op == "global":
+					var full []Seg
+					full, err = keyShape(c, k.Args[0], 0)
+					if err == nil {
+						if len(full) > 0 && full[0].Kind == "Const" && full[0].Arg == k.Args[1].Args[0].Name {
+							kshape = full[1:]
+						} else {
+							err = fmt.Errorf("sliced key does not start with the prefix sliced off: %s", k.String())
+						}
+					}
+				default:
+					kshape, err = keyShape(c, k, 0)
+				}
+			}
+			shape = append(append([]Seg{}, pshape...), kshape...)
+		}
 		if err != nil {
 			r.Undecided("A11.iter-prefix", fn(e.Fn)+"|"+e.Kind+"|"+e.Section, pos(c, e.Site), "key expression is interpretable", err.Error())
 			continue
@@ -435,6 +460,52 @@ func C18(c *Ctx) {
 		r.Require(ok, "A11.iter-prefix", fn(e.Fn)+"|"+e.Kind+"|"+e.Section, pos(c, e.Site), "key is a full builder layout of its section (iteration: a segment-boundary prefix of one)", fmt.Sprintf("layout %s; section layouts %v", shapeStr(shape), want))
 	}
 	r.Analysed["keyed_store_accesses_interpreted"] = nIter
+
+	// iterations on transaction and block paths stay inside one owner's records: in a section whose keys lead with an
+	// owner segment (<prefix><id><...>), what confines the scan — the prefix of the prefix store it runs on, the key of a
+	// prefix iterator — reaches at least to the end of that segment. A range scan from some key to the end of the whole
+	// section runs on into the next owner's records as soon as this owner has none left.
+	scope := consensusScope(c, []string{"MSG", "ANTE", "BEGIN", "END"})
+	nConf := 0
+	for _, e := range storeEff {
+		if e.Kind != "StoreIter" || ir.ModuleOf(e.Fn) == "" || e.Via != nil || strings.Contains(fn(e.Fn), "/migrations/") {
+			continue
+		}
+		if _, in := scope[e.Fn]; !in {
+			continue
+		}
+		maxSeg := 0
+		for _, b := range builders[e.Section] {
+			if len(b.Shape) > maxSeg {
+				maxSeg = len(b.Shape)
+			}
+		}
+		if maxSeg < 3 {
+			continue
+		}
+		confine := e.Key
+		switch {
+		case e.Prefix != nil:
+			confine = e.Prefix
+		case e.Method == "Iterator" || e.Method == "ReverseIterator":
+			// a raw range scan on the plain store: confined by its own bounds (judged by A11.iter-end-bound)
+			continue
+		}
+		if confine == nil {
+			continue
+		}
+		nConf++
+		shape, err := keyShape(c, w.Expand(confine, 6), 0)
+		if err != nil {
+			r.Undecided("A11.iter-confined", fn(e.Fn)+"|"+e.Section, pos(c, e.Site), "the confining prefix is interpretable", err.Error())
+			continue
+		}
+		ranged := e.Prefix != nil && e.Key != nil && !(e.Key.Op == "const" && e.Key.Name == "nil")
+		r.Require(len(shape) >= 2 || !ranged, "A11.iter-confined", fn(e.Fn)+"|"+e.Section, pos(c, e.Site),
+			"a scan that starts at a key of one owner is confined to that owner's records (the store prefix reaches the owner segment)",
+			fmt.Sprintf("scan from %s over a store confined only by %s", e.Key.String(), shapeStr(shape)))
+	}
+	r.Analysed["iterations_on_consensus_paths_judged_for_confinement"] = nConf
 
 	streamParsers(c, builders)
 }
